@@ -13,6 +13,10 @@ def call(mod, pb):
     return mod.solve_aquarium(pb["h"], pb["w"], blocks, pb["rows"], pb["cols"])
 
 
+def ncand(pb):
+    return 2 ** (pb['h'] * pb['w'])
+
+
 def encode(pb):
     return [[pb["h"], pb["w"]], L.flat(L.region_ids(pb["h"], pb["w"], pb["blocks"])), pb["rows"], pb["cols"]]
 
